@@ -116,6 +116,39 @@ Proof.
   repeat (split; [reflexivity|]). unfold pp_update. cbn [pp_with_packet pp_edns_count pp_ext_rcode pp_edns_version pp_ext_flags pp_max_payload]. rewrite Eoff. reflexivity.
 Qed.
 
+(** [set_raw_name] with its last step (the cursor's [recompute]) as a parameter *)
+Definition set_name_k (name : bytes) (k : cm unit) : cm unit :=
+  new_name_len <-- clift (check_compressed_name name 0) ;;
+  let name := firstn new_name_len name in
+  v <-- getv ;; it <-- getit ;;
+  (if pp_maybe_compressed v then
+     match it_offset it with
+     | None => clift (Err VoidRecord)
+     | Some ref_offset => m_cursor_decompress ref_offset
+     end
+   else cret tt) ;;-
+  v <-- getv ;; it <-- getit ;;
+  match it_offset it with
+  | None => clift (Err VoidRecord)
+  | Some offset =>
+    if pp_maybe_compressed v then clift (Panic 661)
+    else
+      ns <-- clift (slice (pp_packet v) offset (it_name_end it) 662) ;;
+      current_name_len <-- clift (raw_name_len ns) ;;
+      (if current_name_len <=? new_name_len
+       then m_resize_rr true (new_name_len - current_name_len)
+       else m_resize_rr false (current_name_len - new_name_len)) ;;-
+      v <-- getv ;;
+      p' <-- clift (write_at (pp_packet v) offset name 663) ;;
+      putv (pp_with_cached (pp_with_packet v p') None) ;;-
+      k
+  end.
+
+Lemma set_raw_name_is_k nm : m_set_raw_name nm = set_name_k nm m_recompute_rr.
+Proof. reflexivity. Qed.
+
+Definition keeps_view (k : cm unit) : Prop := forall s s' r, k s = (s', r) -> fst s' = fst s.
+
 Lemma recompute_rr_fst s s' r : m_recompute_rr s = (s', r) -> fst s' = fst s.
 Proof.
   unfold m_recompute_rr, cbind, getv, getit, clift, putit. cbn [fst snd].
@@ -134,12 +167,12 @@ Proof.
   - specialize (Hk2 eq_refl). unfold usub in H. destruct (k <=? x) eqn:E; cbn [bind] in H; [|discriminate]. inversion H. f_equal. lia.
 Qed.
 
-Lemma set_name_view nm v it s' off sec n W :
+Lemma set_name_view_k nm k v it s' off sec n W : keeps_view k ->
   pp_maybe_compressed v = false -> it_offset it = Some off -> it_current_section v it = Ok sec -> sec <> SQuestion ->
   check_compressed_name nm 0 = Ok n -> n <= length nm ->
   slice (pp_packet v) off (it_name_end it) 662 = Ok W -> raw_name_len W = Ok (length W) -> off + length W <= length (pp_packet v) ->
   (forall x, pp_offset_edns v = Some x -> off < x -> length W <= x) ->
-  m_set_raw_name nm (v, it) = (s', Ok tt) ->
+  set_name_k nm k (v, it) = (s', Ok tt) ->
   let q := pp_packet v in
   let old := length W in
   pp_packet (fst s') = firstn off q ++ firstn n nm ++ skipn (off + old) q /\
@@ -151,8 +184,8 @@ Lemma set_name_view nm v it s' off sec n W :
   pp_edns_count (fst s') = pp_edns_count v /\ pp_ext_rcode (fst s') = pp_ext_rcode v /\ pp_edns_version (fst s') = pp_edns_version v /\
   pp_ext_flags (fst s') = pp_ext_flags v /\ pp_max_payload (fst s') = pp_max_payload v.
 Proof.
-  intros Hmc Eoff Esec Hnq Hck Hn Hsl Hrl Hfit Hed Hrun q old.
-  unfold m_set_raw_name in Hrun. unfold cbind at 1 in Hrun. unfold clift at 1 in Hrun. rewrite Hck in Hrun.
+  intros Hkv Hmc Eoff Esec Hnq Hck Hn Hsl Hrl Hfit Hed Hrun q old.
+  unfold set_name_k in Hrun. unfold cbind at 1 in Hrun. unfold clift at 1 in Hrun. rewrite Hck in Hrun.
   unfold cbind at 1 in Hrun. unfold getv at 1 in Hrun. cbn [fst snd] in Hrun.
   unfold cbind at 1 in Hrun. unfold getit at 1 in Hrun. cbn [fst snd] in Hrun. rewrite Hmc in Hrun.
   unfold cbind at 1 in Hrun. unfold cret at 1 in Hrun.
@@ -223,10 +256,31 @@ Proof.
   unfold cbind at 1 in Hrun. unfold getv at 1 in Hrun. cbn [fst snd] in Hrun.
   unfold cbind at 1 in Hrun. unfold clift at 1 in Hrun. rewrite Ev1 in Hrun. cbn [pp_update pp_packet] in Hrun. rewrite Hw in Hrun.
   unfold cbind at 1 in Hrun. unfold putv at 1 in Hrun. cbn [fst snd] in Hrun.
-  match type of Hrun with m_recompute_rr ?s0 = _ => pose proof (recompute_rr_fst _ _ _ Hrun) as Efst end. cbn [fst] in Efst.
+  pose proof (Hkv _ _ _ Hrun) as Efst. cbn [fst] in Efst.
   rewrite Efst. cbn [pp_with_cached pp_with_packet pp_packet pp_maybe_compressed pp_offset_question pp_offset_answers pp_offset_nameservers
     pp_offset_additional pp_offset_edns pp_edns_count pp_ext_rcode pp_edns_version pp_ext_flags pp_max_payload].
   repeat (split; [reflexivity|]). reflexivity.
+Qed.
+
+Lemma set_name_view nm v it s' off sec n W :
+  pp_maybe_compressed v = false -> it_offset it = Some off -> it_current_section v it = Ok sec -> sec <> SQuestion ->
+  check_compressed_name nm 0 = Ok n -> n <= length nm ->
+  slice (pp_packet v) off (it_name_end it) 662 = Ok W -> raw_name_len W = Ok (length W) -> off + length W <= length (pp_packet v) ->
+  (forall x, pp_offset_edns v = Some x -> off < x -> length W <= x) ->
+  m_set_raw_name nm (v, it) = (s', Ok tt) ->
+  let q := pp_packet v in
+  let old := length W in
+  pp_packet (fst s') = firstn off q ++ firstn n nm ++ skipn (off + old) q /\
+  pp_maybe_compressed (fst s') = false /\
+  pp_offset_question (fst s') = pp_offset_question v /\ pp_offset_answers (fst s') = pp_offset_answers v /\
+  pp_offset_nameservers (fst s') = (if section_eqb sec SAnswer then sh n old (pp_offset_nameservers v) else pp_offset_nameservers v) /\
+  pp_offset_additional (fst s') = (if section_eqb sec SNameServers || section_eqb sec SAnswer then sh n old (pp_offset_additional v) else pp_offset_additional v) /\
+  pp_offset_edns (fst s') = (if opt_lt (Some off) (pp_offset_edns v) then sh n old (pp_offset_edns v) else pp_offset_edns v) /\
+  pp_edns_count (fst s') = pp_edns_count v /\ pp_ext_rcode (fst s') = pp_ext_rcode v /\ pp_edns_version (fst s') = pp_edns_version v /\
+  pp_ext_flags (fst s') = pp_ext_flags v /\ pp_max_payload (fst s') = pp_max_payload v.
+Proof.
+  intros Hmc Eoff Esec Hnq Hck Hn Hsl Hrl Hfit Hed Hrun. rewrite set_raw_name_is_k in Hrun.
+  exact (set_name_view_k nm m_recompute_rr v it s' off sec n W recompute_rr_fst Hmc Eoff Esec Hnq Hck Hn Hsl Hrl Hfit Hed Hrun).
 Qed.
 
 (** ** The core, for any of the three sections: the byte layout and the offset arithmetic are supplied by the caller *)
@@ -452,4 +506,21 @@ Proof.
       unfold R'. rewrite <- !app_assoc. cbn [app]. repeat (split; [reflexivity|]).
       split; [rewrite !cat_app, !app_length; unfold o3, o2 in Er; rewrite Er; f_equal; lia|].
       split; [reflexivity|]. split; [reflexivity|]. split; [exact LR'|exact Hfl].
+Qed.
+
+Lemma set_name_k_split nm k s :
+  set_name_k nm k s = match set_name_k nm (cret tt) s with
+                      | (s1, Ok _) => k s1
+                      | (s1, Err e) => (s1, Err e)
+                      | (s1, Panic x) => (s1, Panic x)
+                      end.
+Proof.
+  unfold set_name_k, cbind, clift, getv, getit, putv, cret. cbn [fst snd].
+  repeat match goal with
+         | |- context [match ?x with _ => _ end] =>
+           match x with
+           | context [match _ with _ => _ end] => fail 1
+           | _ => destruct x eqn:?
+           end
+         end; try reflexivity.
 Qed.
